@@ -73,6 +73,7 @@ META = {
         "rule": "table cases = (8 identifiers, 42 attribute classes) each evaluated for 7 decode functions x {direct, via wire}; non-trivial = contains an identifier <= 14 or a key-length class; advertised/bad-proposal cases all non-trivial; distinct by hash",
         "assumptions": COMMON_ASSUME + ["transform structs offered directly to the decode functions are consistent (AttributePresent=false implies zero attribute fields), as the wire decoder and the builders produce them"],
         "exhaustive_all": ["advertised"],
+        "extra_packages": ["./propsmin"],
     },
     "C14": {
         "technique": "property-based testing (rapid): round trip + strict independent EAP parser + get-equals-set through the public attribute API; exhaustive setter size table",
